@@ -96,7 +96,25 @@ func runC48(c *Ctx) {
 		ast.Inspect(fn.Decl.Body, func(n ast.Node) bool {
 			if as, ok := n.(*ast.AssignStmt); ok && len(as.Rhs) == 1 {
 				if be, ok := as.Rhs[0].(*ast.BinaryExpr); ok && be.Op == token.ADD {
-					if (selField(info, be.Y) == ttl && objOf(info, be.X) != nil && objOf(info, be.X).Name() == "now") || (selField(info, be.X) == ttl) {
+					// <current time> + ttl: the other operand is the clock reading (s.now(), directly or through a local)
+					isNow := func(e ast.Expr) bool {
+						e = ast.Unparen(e)
+						if id, ok := e.(*ast.Ident); ok {
+							if def := singleLocalDefIn(info, fn.Decl.Body, info.ObjectOf(id)); def != nil {
+								e = ast.Unparen(def)
+							}
+						}
+						call, ok := e.(*ast.CallExpr)
+						if !ok {
+							return false
+						}
+						if cal := callee(info, call); cal != nil && cal.Name() == "now" {
+							return true
+						}
+						fv := selField(info, call.Fun)
+						return fv != nil && fv.Name() == "now"
+					}
+					if (selField(info, be.Y) == ttl && isNow(be.X)) || (selField(info, be.X) == ttl && isNow(be.Y)) {
 						exp = info.ObjectOf(as.Lhs[0].(*ast.Ident))
 					}
 				}
@@ -220,8 +238,18 @@ func runC48(c *Ctx) {
 		own := mf.EdgesWhere(func(cond ast.Expr) (bool, bool) {
 			cm, ok := asCmp(cond, true)
 			if ok && cm.Op == token.EQL {
-				if o := objOf(minfo, cm.L); o != nil && o.Name() == "idx" {
-					return true, true
+				// the index the map holds for the slot's key, compared with the slot's own position
+				if o := objOf(minfo, cm.L); o != nil {
+					isLookup := false
+					ast.Inspect(mc.Decl.Body, func(n ast.Node) bool {
+						if _, okObj, valObj, found := commaOkLookup(minfo, n, items); found && okObj != nil && valObj == o {
+							isLookup = true
+						}
+						return true
+					})
+					if isLookup {
+						return true, true
+					}
 				}
 			}
 			return false, false
